@@ -13,7 +13,7 @@ class C18(Prop):
     technique = "Coq proof of longest-prefix selection (invariant over the iteration) and of the per-user lookup + regenerated liveness constants + differential run of mostSpecificMatchingBackend against the extracted model"
     level_text = ("C18_longest / C18_longest_backend / C18_no_match prove, for every path and every list of backends with arbitrary prefix lists, that the modelled selection returns a backend owning a "
                   "matching prefix of maximal length (the first such in iteration order) and fails iff nothing matches; C18_lookup / C18_lookup_complete prove own-backends-first, shared fallback only without an own match, "
-                  "and liveness strictly inside the window. The real mostSpecificMatchingBackend is run on bounded-exhaustive and random backend sets and must equal the model exactly; the real app (LookupBackend, hasBackend, 404) is run on a routing matrix with trackers aged across the window and on random histories and must agree with App/AppModel.v (which calls Route.lookup) step by step.")
+                  "and liveness strictly inside the window; C18_depends_only / C18_other_users_irrelevant prove that nothing but the user's own backends, the shared ones and the liveness of the chosen backend enters the answer. The real mostSpecificMatchingBackend is run on bounded-exhaustive and random backend sets and must equal the model exactly; the real app (LookupBackend, hasBackend, 404) is run on a routing matrix with trackers aged across the window and on random histories and must agree with App/AppModel.v (which calls Route.lookup) step by step.")
     level_note = ("Trusted: Coq kernel, srcfacts (backendTimeout, sharedBackendUser), the harness. Modelled, not verified: strings.HasPrefix (= Coq String.prefix), the datastore query that "
                   "yields the per-user backend list and its key order (ties between equally long prefixes are a declared don't-care of the property oracle), time.Since. "
                   "Backend IDs are non-empty (enforced by parseBackend).")
